@@ -193,6 +193,9 @@ def _sim_params(kind, d, mixer=False):
                      'algorithm_params': {'trunc_params': {'chi_max': 2, 'svd_min': 1e-10}, 'dt': 0.05, 'N_steps': 2, 'order': 2},
                      'connect_measurements': [['tenpy.simulations.measurement', 'm_onsite_expectation_value', {'opname': 'Sz'}],
                                               ['bounded.b_C18', 'm_trunc_err']]})
+        if kind == 'tebd-results-key':
+            # a wrapped measurement stored under a user-chosen key (values are wall-clock times: only key and count are compared)
+            base['connect_measurements'].append(['simulation_method', 'wrap walltime', {'results_key': 'wt_user_key'}])
     return base
 
 
@@ -205,7 +208,7 @@ def m_trunc_err(results, psi, model, simulation, **kwargs):
 def resume_equals_uninterrupted(rec, quick):
     from tenpy.simulations.simulation import run_simulation, resume_from_checkpoint
     import tenpy
-    for kind, mixer in (('tebd', False), ('dmrg', False), ('dmrg', True), ('dmrg-default-min-sweeps', False), ('dmrg-measure-at-checkpoints', False), ('dmrg-chi-list', False),
+    for kind, mixer in (('tebd', False), ('dmrg', False), ('dmrg', True), ('dmrg-default-min-sweeps', False), ('dmrg-measure-at-checkpoints', False), ('dmrg-chi-list', False), ('tebd-results-key', False),
                         ('correlation', False), ('correlation-braket', False)) + ((('spectral', False),) if not quick else ()):
         with tempfile.TemporaryDirectory() as d:
             params = _sim_params(kind, d, mixer)
@@ -247,6 +250,8 @@ def resume_equals_uninterrupted(rec, quick):
                     if a.shape != b.shape:
                         rec.violation(f'resume[{kind},mixer={mixer}]:measurement-count[{key}]',
                                       f'{key}: {a.shape[0] if a.ndim else 1} measurements uninterrupted, {b.shape[0] if b.ndim else 1} after resume (lost or duplicated)', inp)
+                    elif key in ('walltime', 'wt_user_key'):
+                        pass      # wall-clock times
                     elif a.dtype != object and not np.allclose(a, b, atol=1e-9, rtol=1e-7, equal_nan=True):
                         rec.violation(f'resume[{kind},mixer={mixer}]:measurement-values[{key}]',
                                       f'{key}: uninterrupted {np.asarray(a).ravel()[-3:]} vs resumed {np.asarray(b).ravel()[-3:]}', inp)
